@@ -21,6 +21,16 @@
 
 using Req = std::vector<std::pair<std::string, std::string>>;
 
+extern "C" void __sanitizer_print_stack_trace();
+static void on_xcpu(int)
+{
+    // CPU limit hit: show where the child was spinning, then die with a recognisable status
+    const char msg[] = "\nORACLE-TIMEOUT: CPU limit exceeded; stack at that moment:\n";
+    (void)!write(2, msg, sizeof msg - 1);
+    __sanitizer_print_stack_trace();
+    _exit(97);
+}
+
 static bool read_exact(int fd, std::string& out, size_t n)
 {
     out.resize(n);
@@ -115,6 +125,7 @@ int main(int argc, char** argv)
                 (rlim_t) cpu_limit, (rlim_t)cpu_limit + 2
             };
             setrlimit(RLIMIT_CPU, &rl);
+            signal(SIGXCPU, on_xcpu);
             std::string js = run_request(req, workdir);
             write_all(out[1], js);
             close(out[1]);
@@ -167,7 +178,8 @@ int main(int argc, char** argv)
                 j.key("signal").num(WTERMSIG(status));
             else
                 j.key("exit").num(WIFEXITED(status) ? WEXITSTATUS(status) : -1);
-            j.key("timeout").boolean(WIFSIGNALED(status) && (WTERMSIG(status) == SIGXCPU || WTERMSIG(status) == SIGKILL));
+            j.key("timeout").boolean((WIFSIGNALED(status) && (WTERMSIG(status) == SIGXCPU || WTERMSIG(status) == SIGKILL)) ||
+                                     (WIFEXITED(status) && WEXITSTATUS(status) == 97));
             if (es.size() > 20000)
                 es = es.substr(0, 12000) + "\n...\n" + es.substr(es.size() - 6000);
             j.key("stderr").str(es);
